@@ -200,6 +200,7 @@ def run(ck: Check, repo: Repo) -> None:
             recvs = _io_nodes(cfg, kinds=("recv",))
             ck.ob("C13.4", fn, t.ast, all(cfg.dominates(t, r) for r in recvs), f"{name}: nothing is received before the poll succeeded")
         ck.ob("C13.4", fn, fn.node, bool(polls), f"{name}: polls the pipes with a timeout before receiving", construct=f"{name}: poll")
+    _success_flags(ck, repo, cls)
     _poll(ck, repo, cls)
     _worker(ck, repo)
     _close(ck, repo, cls)
@@ -378,6 +379,36 @@ VARIANTS = [
     ("close-no-join", _AV, "        for process in self.processes:\n            process.join()", "        pass", "fire", "C13.5"),
     ("close-timeout-ignored", _AV, "        except mp.TimeoutError:\n            terminate = True", "        except mp.TimeoutError:\n            pass", "fire", "C13.5"),
     ("close-not-idempotent", _PV, "        if self.closed:\n            return\n\n        self.close_extras(**kwargs)", "        self.close_extras(**kwargs)", "fire", "C13.5"),
+    ("set-attr-ignores-success", _AV, "        _, successes = zip(*[pipe.recv() for pipe in self.parent_pipes])\n        self._raise_if_errors(successes)\n\n    def close_extras",
+     "        for pipe in self.parent_pipes:\n            pipe.recv()\n\n    def close_extras", "fire", "C13.3"),
     ("wait-try-finally-ok", _AV, "        results, successes = zip(*[pipe.recv() for pipe in self.parent_pipes])\n        self._raise_if_errors(successes)\n        self._state = AsyncState.DEFAULT\n        return results",
      "        try:\n            results, successes = zip(*[pipe.recv() for pipe in self.parent_pipes])\n            self._raise_if_errors(successes)\n        finally:\n            self._state = AsyncState.DEFAULT\n        return results", "silent", None),
 ]
+
+
+def _success_flags(ck: Check, repo: Repo, cls: Cls) -> None:
+    """Every method that receives worker answers hands their success flags to _raise_if_errors."""
+    from ..terms import TermBuilder, mentions
+    n_sites = 0
+    for name, m in cls.methods.items():
+        if name in ("close_extras", "_raise_if_errors"):
+            continue
+        recvs = [c for c in calls_in(m.node, nested=True) if last_attr(c) == "recv" and "pipe" in ast.unparse(c.func.value)]
+        if not recvs:
+            continue
+        n_sites += 1
+        cfg = CFG(m.node)
+        tb = TermBuilder(repo, m, cfg=cfg, depth=0)
+        checks = [c for c in calls_in(m.node) if call_name(c) == "self._raise_if_errors"]
+        ok = False
+        detail = "no call of self._raise_if_errors(...)"
+        for c in checks:
+            n = cfg.node_of(c)
+            t = tb.term(c.args[0], n) if c.args and n is not None else None
+            from_recv = t is not None and mentions(tb, t, lambda a: (a.kind == "call" and a.name == "recv") or (a.kind == "comp" and "recv" in a.key))
+            on_all = n is not None and cfg.postdominates(n, cfg.entry) or (n is not None and not [g for g in cfg.guards_at(n) if "_state" not in ast.unparse(g[0]) and "poll" not in ast.unparse(g[0])])
+            ok = from_recv and on_all
+            detail = f"argument derives from the received answers: {from_recv}; on every path after receiving: {on_all}"
+        ck.ob("C13.3", m, recvs[0], ok, f"{name}: the success flags of the received answers are checked by _raise_if_errors (a failed worker's "
+                                         "exception reaches the caller and its pipe is retired)", detail=detail)
+    ck.floor("C13.3", n_sites, 4, "methods receiving worker answers (reset_wait, step_wait, call_wait, set_attr)")
